@@ -77,15 +77,31 @@ def build(config="default", repo=REPO, verbose=False):
     okf = os.path.join(out, "OK")
     if os.path.exists(okf):
         return out, json.load(open(okf))
-    lock = open(os.path.join(WORK, "facts.lock"), "w")
-    fcntl.flock(lock, fcntl.LOCK_EX)
+    # one build at a time per target directory; development tools that analyse several scratch trees at once may use more than one
+    # target directory (VERIF_FACT_SLOTS, default 1 - the registered checks never need more)
+    nslots = max(1, int(os.environ.get("VERIF_FACT_SLOTS", "1") or 1))
+    lock = None
+    slot = 0
+    if nslots > 1:
+        for k in range(nslots):
+            lk = open(os.path.join(WORK, "facts.lock" + (".%d" % k if k else "")), "w")
+            try:
+                fcntl.flock(lk, fcntl.LOCK_EX | fcntl.LOCK_NB)
+                lock, slot = lk, k
+                break
+            except OSError:
+                lk.close()
+    if lock is None:
+        slot = (os.getpid() % nslots) if nslots > 1 else 0
+        lock = open(os.path.join(WORK, "facts.lock" + (".%d" % slot if slot else "")), "w")
+        fcntl.flock(lock, fcntl.LOCK_EX)
     try:
         if os.path.exists(okf):
             return out, json.load(open(okf))
         if os.path.exists(out):
             shutil.rmtree(out)
         os.makedirs(out)
-        target = os.path.join(WORK, "target-" + config)
+        target = os.path.join(WORK, "target-" + config + ("-s%d" % slot if slot else ""))
         # cargo's freshness cache would skip the wrapper: drop the members' fingerprints
         fp = os.path.join(target, "debug", ".fingerprint")
         if os.path.isdir(fp):
